@@ -75,6 +75,33 @@ def build(tier, repo):
             present, absent = (n.body, n.orelse) if t.startswith("(v in") else (n.orelse, n.body)
             key = "op.%s:%s" % (mname, _ctx(n, fn))
             where = m.where(n, fn)
+            if (not present or not absent) and mname == "addconstraint":
+                # another form of insert-or-create (create an empty entry, then append under a selected key): decided by an abstract run
+                from .. import bookkeeping as bk
+                good, detail = True, []
+                try:
+                    for kind, lst in (("i", bk.INEQ), ("e", bk.EQ)):
+                        for known in (True, False):
+                            run_ = bk.run(fn, kind, known)
+                            apps = [e_[1] for e_ in run_.events if e_[0] == "append"]
+                            if apps != [lst]:
+                                good = False
+                                detail.append("type %s: appended to %s" % (kind, apps))
+                            if known and [e_[1] for e_ in run_.events if e_[0] == "vappend"] != [kind]:
+                                good = False
+                                detail.append("known variable, type %s: %s" % (kind, run_.events))
+                            if not known and run_.entry != {"o": False, "i": ["c"] if kind == "i" else [], "e": ["c"] if kind == "e" else []}:
+                                good = False
+                                detail.append("new variable, type %s: entry %s" % (kind, run_.entry))
+                except bk.Unknown as ex:
+                    r1.undecided(key, where, "insert-or-create form not modelled: %s" % ex)
+                    continue
+                if good:
+                    r1.ok(key, where, "abstract run: known and new variables end with c in the matching list")
+                else:
+                    r1.violation(key + ":abstract-run", where, "the bookkeeping of addconstraint does not leave c in exactly the matching list of every variable",
+                                 "entry['i'|'e'] gains c", detail)
+                continue
             if not present or not absent:
                 r1.violation(key + ":both-arms", where,
                              "the bookkeeping handles only %s variables: the other case leaves _variables stale"
@@ -192,31 +219,31 @@ def build(tier, repo):
         r4.violation("op.delconstraint:try/except ValueError", m.where(fn, fn), "no ValueError handler", "try ... except ValueError", "absent")
     else:
         t = tries[0]
-        for blk_name, blk in _branches(t.body):
-            first_var_write = None
-            removal = None
-            for i, s in enumerate(_flatten(blk)):
-                txt = pf.norm_expr(s) if not isinstance(s, (ast.For, ast.If)) else ""
-                if removal is None and isinstance(s, ast.Expr) and isinstance(s.value, ast.Call) \
-                        and pf.norm_expr(s.value) in ("self._inequalities.remove(c)", "self._equalities.remove(c)"):
-                    removal = i
-                if first_var_write is None and VARS in txt and (".remove(" in txt or isinstance(s, (ast.Delete, ast.Assign, ast.AugAssign))):
-                    first_var_write = i
-            key = "op.delconstraint:%s:source removal first" % blk_name
-            if removal is None:
-                r4.violation(key, m.where(t, fn), "constraint is not removed from its source list", "self._<list>.remove(c)", "absent")
-            elif first_var_write is not None and first_var_write < removal:
-                r4.violation(key, m.where(t, fn), "_variables is modified before it is known that c is in the problem", "removal first", "write first")
+        # the order and the targets of the bookkeeping events are read off an abstract run of the method (sa/bookkeeping.py),
+        # for an inequality and for an equality - whatever the syntactic form (two arms, or list and key selected first)
+        from .. import bookkeeping as bk
+        for kind, lst in (("i", bk.INEQ), ("e", bk.EQ)):
+            arm = "c.type() == '%s'" % ("<" if kind == "i" else "=")
+            try:
+                ev_ = bk.run(fn, kind, True).events
+            except bk.Unknown as ex:
+                r4.undecided("op.delconstraint:%s:source removal first" % arm, m.where(t, fn), "statement not modelled: %s" % ex)
+                continue
+            rem = [k_ for k_, e_ in enumerate(ev_) if e_[0] == "remove"]
+            vw = [k_ for k_, e_ in enumerate(ev_) if e_[0] in ("vremove", "vappend", "vdel", "create")]
+            key = "op.delconstraint:%s:source removal first" % arm
+            if not rem or ev_[rem[0]][1] != lst:
+                r4.violation(key, m.where(t, fn), "the constraint is not removed from %s" % lst, "%s.remove(c)" % lst, ev_)
+            elif vw and vw[0] < rem[0]:
+                r4.violation(key, m.where(t, fn), "_variables is modified before it is known that c is in the problem", "removal first", ev_)
             else:
-                r4.ok(key, m.where(t, fn))
-        for blk_name, blk in _branches(t.body):
-            kind = "i" if "inequalit" in " ".join(pf.norm_expr(s) for s in _flatten(blk) if isinstance(s, ast.Expr)) else "e"
-            rem = [pf.norm_expr(s) for s in _flatten(blk) if isinstance(s, ast.Expr) and "%s[v][" % VARS in pf.norm_expr(s)]
-            key = "op.delconstraint:%s:removes c from the matching per-variable list" % blk_name
-            if rem == ["%s[v]['%s'].remove(c)" % (VARS, kind)]:
-                r4.ok(key, m.where(t, fn), rem[0])
+                r4.ok(key, m.where(t, fn), ev_)
+            key = "op.delconstraint:%s:removes c from the matching per-variable list" % arm
+            vr = [e_[1] for e_ in ev_ if e_[0] == "vremove"]
+            if vr == [kind]:
+                r4.ok(key, m.where(t, fn), "%s[v]['%s'].remove(c)" % (VARS, kind))
             else:
-                r4.violation(key, m.where(t, fn), "per-variable list does not match the source list", "%s[v]['%s'].remove(c)" % (VARS, kind), rem)
+                r4.violation(key, m.where(t, fn), "per-variable list does not match the source list", "%s[v]['%s'].remove(c)" % (VARS, kind), vr)
     r4.require(4)
 
     r5 = chk.rule("C13-R5", "no loop variable of an op method is read after its loop", "bookkeeping covers every variable, not only the last one")
